@@ -173,15 +173,21 @@ type c12Stream struct {
 	Enc     []byte
 	Spans   []gw.ChunkSpan
 	Signed  gw.Signed
+	// Secret the readers are built with ("" = c12Secret)
+	Secret string
 }
 
 const c12Secret = "c12secretc12secretc12"
 
 func (s *c12Stream) newReader(src io.Reader) (io.Reader, error) {
 	ad := utils.AuthData{Algorithm: "AWS4-HMAC-SHA256", Access: "c12", Region: gw.Region, Signature: s.Signed.Signature, Date: s.Signed.Time.Format("20060102")}
+	secret := c12Secret
+	if s.Secret != "" {
+		secret = s.Secret
+	}
 	switch s.Mode {
 	case "signed":
-		return utils.NewSignedChunkReader(src, ad, gw.Region, c12Secret, s.Signed.Time, "", false)
+		return utils.NewSignedChunkReader(src, ad, gw.Region, secret, s.Signed.Time, "", false)
 	case "signed-trailer":
 		return newSignedTrailer(src, ad, s)
 	default:
@@ -309,7 +315,7 @@ func (s *c12Stream) replay(steps []c12Step, enc []byte) c12Run {
 }
 
 func C12(r *ck.Run) {
-	r.Rule("for every valid stream of the menu (payload lengths × chunk splits × signed / signed+trailer / unsigned+trailer × checksum algorithms): breadth-first search over the REAL reader object where one transition is one Read(p) with len(p) from a menu and the source handing out any admissible number of bytes (EOF together with the final bytes or in a read of its own), states deduplicated on (source offset, bytes delivered, reflective dump of every reader field incl. hash states) until closure; plus every truncation point and every single-byte substitution (10 representatives per offset, among them sign and blank characters; two splits are also encoded with zero-padded chunk sizes) of each stream under whole / 1-byte / 7-byte fragmentation; the destination buffer is one reused, overwritten buffer; plus every interleaving of the Read calls of two readers of two uploads (destination smaller than the chunks); distinct = distinct state, mutated stream or reader pair")
+	r.Rule("for every valid stream of the menu (payload lengths × chunk splits × signed / signed+trailer / unsigned+trailer × checksum algorithms): breadth-first search over the REAL reader object where one transition is one Read(p) with len(p) from a menu and the source handing out any admissible number of bytes (EOF together with the final bytes or in a read of its own), states deduplicated on (source offset, bytes delivered, reflective dump of every reader field incl. hash states) until closure; plus every truncation point, an unterminated header of 1000-5000 bytes in place of every chunk header, and every single-byte substitution (10 representatives per offset, among them sign and blank characters; two splits are also encoded with zero-padded chunk sizes) of each stream under whole / 1-byte / 7-byte fragmentation; the destination buffer is one reused, overwritten buffer; plus every interleaving of the Read calls of two readers of two uploads (destination smaller than the chunks); plus readers built in turn with two secrets of one access key (each verifies with its own); distinct = distinct state, mutated stream or reader pair")
 	r.Assume("the reader is a deterministic function of its construction arguments and the (len(p), bytes, error) answers of its source")
 	streams := c12Streams(r.Thorough())
 	dests := []int{1, 2, 3, 7, 16, 64, 4096, 32768}
@@ -326,8 +332,41 @@ func C12(r *ck.Run) {
 		}
 		if !r.IsWorker() || r.ShardI == 0 {
 			c12Pairs(r, streams)
+			c12SecretChange(r)
 		}
 	})
+}
+
+// c12SecretChange: the chunk signatures are verified with the secret the reader is built with, whatever readers of
+// the same access key were built with before in this process: after uploads with secret S1, a stream signed with
+// S2 decodes on a reader built with S2, and a stream signed with S1 is refused by it (and the other way round).
+func c12SecretChange(r *ck.Run) {
+	t := time.Date(2026, 9, 28, 12, 0, 0, 0, time.UTC)
+	payload := Pattern(6, 5)
+	chunks := gw.SplitChunks(payload, []int{2, 4})
+	secrets := []string{c12Secret, "another-secret-of-the-same-access-key"}
+	mk := func(signSecret, readSecret string) *c12Stream {
+		seed := gw.Signed{Time: t, Region: gw.Region, Signature: strings.Repeat("cd", 32), Key: gw.SigningKey(signSecret, gw.Region, t), Scope: t.Format("20060102") + "/" + gw.Region + "/s3/aws4_request"}
+		enc, spans := gw.EncodeSigned(seed, chunks, "")
+		return &c12Stream{Name: "secret-change", Mode: "signed", Payload: payload, Enc: enc, Spans: spans, Signed: seed, Secret: readSecret}
+	}
+	// every order of the four (signed with, read with) combinations, three rounds
+	combos := [][2]int{{0, 0}, {1, 1}, {0, 1}, {1, 0}}
+	for round := 0; round < 3; round++ {
+		for ci, c := range combos {
+			s := mk(secrets[c[0]], secrets[c[1]])
+			out, err := s.decodeAll(s.Enc, 0, 4096, false)
+			r.Add("evaluations", 1)
+			r.Distinct(fmt.Sprintf("secret-change|%d|%d", round, ci))
+			same := c[0] == c[1]
+			switch {
+			case same && (err != io.EOF || !bytes.Equal(out, payload)):
+				r.Violation(ck.JoinSig("secret-change", "valid-stream-of-the-current-secret-refused-after-readers-of-another-secret"), map[string]any{"round": round, "signed_with": c[0], "reader_built_with": c[1], "error": fmt.Sprint(err)})
+			case !same && err == io.EOF:
+				r.Violation(ck.JoinSig("secret-change", "stream-signed-with-another-secret-accepted"), map[string]any{"round": round, "signed_with": c[0], "reader_built_with": c[1]})
+			}
+		}
+	}
 }
 
 // c12Pairs: two readers of two uploads in flight in one process. Every interleaving of their Read calls (whole
@@ -675,6 +714,19 @@ func c12Mutations(r *ck.Run, s *c12Stream) {
 	for _, extra := range []string{"x", "\r\n", "0\r\n\r\n"} {
 		r.Distinct(fmt.Sprintf("%s|extra|%q", s.Name, extra))
 		try("extra-bytes", "after-end", append(append([]byte{}, s.Enc...), extra...), map[string]any{"extra": extra})
+	}
+	// a chunk header that never completes: the stream continues, where a header is due, with bytes that hold no
+	// header delimiter (up to and beyond the reader's header size limit)
+	for i, sp := range s.Spans {
+		for _, n := range []int{1000, 1024, 1025, 1100, 5000} {
+			m := append(append([]byte{}, s.Enc[:sp.HeaderStart]...), bytes.Repeat([]byte("7"), n)...)
+			cls := "within-header-limit"
+			if n > 1024 {
+				cls = "beyond-header-limit"
+			}
+			r.Distinct(fmt.Sprintf("%s|junk-header|%d|%d", s.Name, i, n))
+			try("unterminated-chunk-header", cls, m, map[string]any{"chunk": i, "junk_bytes": n})
+		}
 	}
 	// single-byte substitutions
 	for off := 0; off < len(s.Enc); off++ {
